@@ -353,6 +353,9 @@ fn apply_stack_effects(fun_builder: &mut FunBuilder, instructions: &mut [Symboli
     label_slots[index].get_or_insert(slots);
   };
 
+  // slot 0 holds the callee or receiver and the arguments sit directly above it. They are
+  // put there by the caller so they never show up as a stack effect of this function
+  let parameter_slots = fun_builder.parameter_count() as i32;
   let mut slots: i32 = 1;
 
   for instruction in instructions {
@@ -368,8 +371,10 @@ fn apply_stack_effects(fun_builder: &mut FunBuilder, instructions: &mut [Symboli
         // an unwind resets the stack to the depth the handler was pushed at
         record(&mut label_slots, label, slots);
 
+        // the handler depth is relative to the frame's first slot so it
+        // has to include the parameters
         // TODO handle to many slots
-        *instruction = SymbolicByteCode::PushHandler((slots as u16, *label))
+        *instruction = SymbolicByteCode::PushHandler(((slots + parameter_slots) as u16, *label))
       },
       // the operand is still on the stack when these jump
       SymbolicByteCode::And(label) | SymbolicByteCode::Or(label) => {
